@@ -12,4 +12,6 @@ def run(ctx):
     ctx.rule("R-FACADE-TRACK", "the facade's own state machine advances only for a DM14 it found the server idle for", floor=1)
     D.facade_track(ctx)
     D.idle_reset(ctx)
+    ctx.rule("R-SETTLE-FIRST", "requester address, pointer and state are stored before the seed message goes out (an intruding DM14 processed meanwhile is refused)", floor=4)
+    D.settle_first(ctx)
     return "admission guard formula and dominance, effect set of the busy branch, facade busy wrapping"
